@@ -532,6 +532,25 @@ def configs_case(item):
           middle_calibration=mc, middle_monotonicity=mm, middle_calibration_num_keypoints=4,
           output_initialization=[0.0, 1.0], output_min=0.0, output_max=1.0))
   msgs = []
+  if w == "ensemble":
+    # seed-derived structure: a 'random' ensemble config that went through get_config()/from_config()
+    # materialises the same lattices as the original, whatever the global NumPy generator state is
+    from tensorflow_lattice.python import premade_lib
+    for nl, rank, seed in ((4, 2, 3), (5, 3, 11), (6, 2, 0)):
+      mk = lambda: tfl.configs.CalibratedLatticeEnsembleConfig(
+          feature_configs=_feature_configs(tfl, 0), lattices="random", num_lattices=nl, lattice_rank=rank,
+          random_seed=seed, output_initialization=[0.0, 1.0])
+      o1 = mk()
+      with keras.utils.custom_object_scope(co):
+        o2 = type(o1).from_config(json.loads(json.dumps(norm(o1.get_config()))), custom_objects=co)
+      np.random.seed(4711)
+      premade_lib.set_random_lattice_ensemble(o1)
+      np.random.seed(12)
+      np.random.rand(7)
+      premade_lib.set_random_lattice_ensemble(o2)
+      if norm(o1.lattices) != norm(o2.lattices):
+        msgs.append("random ensemble (seed %d) rebuilt from its config gets lattices %s, original %s" %
+                    (seed, o2.lattices, o1.lattices))
   for o in objs:
     cfg = o.get_config()
     for how in ("direct", "json"):
